@@ -461,8 +461,8 @@ def roundtrip_histories(hid0, rng, tmpdir, thorough):
     # ---- VCF import: phased diploid calls
     for clsname in ("DensePhasedGenotypeMatrix", "DenseGenotypeMatrix"):
         cls = imp("pybrops.popgen.gmat." + clsname, clsname)
-        for rep in range(8 if thorough else 4):
-            ns = rng.randrange(1, 5); nv = [1, 6, 3, 9][rep % 4] if rep < 4 else rng.randrange(1, 12)
+        for rep in range(12 if thorough else 6):
+            ns = rng.randrange(1, 5); nv = [1, 6, 3, 9, 7, 11][rep % 6] if rep < 6 else rng.randrange(1, 12)
             samples = [rng.choice(["S", "ind", "Ωx", "ln-"]) + str(k) for k in range(ns)]
             recs = []
             used = set()
@@ -474,8 +474,13 @@ def roundtrip_histories(hid0, rng, tmpdir, thorough):
                 recs.append((ch, ps, "snp_%d_%d" % (ch, ps), [(rng.randrange(2), rng.randrange(2)) for _ in range(ns)]))
             grouped = rep % 2 == 0
             recs.sort(key=lambda r: (r[0], r[1]))
+            filerecs = list(recs)
+            if not grouped or rep >= 4:
+                # rep >= 4: the records of the FILE are in arbitrary order and the import groups them (the default): the matrix
+                # must list them in (chromosome, position) order, each with its own calls
+                rng.shuffle(filerecs)
             if not grouped:
-                rng.shuffle(recs)
+                recs = filerecs
             fn = os.path.join(tmpdir, "v%d_%s.vcf" % (rep, clsname))
             with open(fn, "w", encoding="utf8") as f:
                 f.write("##fileformat=VCFv4.2\n")
@@ -483,7 +488,7 @@ def roundtrip_histories(hid0, rng, tmpdir, thorough):
                     f.write("##contig=<ID=%d>\n" % ch)
                 f.write('##FORMAT=<ID=GT,Number=1,Type=String,Description="Genotype">\n')
                 f.write("#CHROM\tPOS\tID\tREF\tALT\tQUAL\tFILTER\tINFO\tFORMAT\t" + "\t".join(samples) + "\n")
-                for ch, ps, vid, calls in recs:
+                for ch, ps, vid, calls in filerecs:
                     f.write("%d\t%d\t%s\tA\tC\t.\tPASS\t.\tGT\t%s\n" % (ch, ps, vid, "\t".join("%d|%d" % c for c in calls)))
             ph = np.array([[[recs[v][3][s][p] for v in range(nv)] for s in range(ns)] for p in range(2)], dtype="int8")
             exp = {"taxa": val(np.array(samples, dtype=object)),
